@@ -221,9 +221,62 @@ mod attack {
         };
         Some(et::verify_transfer_data(&context, &pk_receiver, &pk_sender, &enc_balance, &forged))
     }
+
+    /// Truncated-response forgery against secret-to-public transfers.  `cut_amount`: the sigma response omits
+    /// the (single) chunk of the public amount, so a balance of 5 "pays out" 1_000_000 and keeps 5;
+    /// otherwise it omits the high chunk of the remaining amount, which then holds 1000*2^32 out of thin air.
+    pub fn truncated_forgery_sec_to_pub(seed: u64, cut_amount: bool) -> Option<bool> {
+        use concordium_base::elgamal::Cipher;
+        let mut csprng = StdRng::seed_from_u64(seed ^ 0x52b);
+        let context = GlobalContext::<G1>::generate_size(String::from("verif-c12"), 64);
+        let h = context.encryption_in_exponent_generator();
+        let gens = context.bulletproof_generators().take(64);
+        let sk: SecretKey<G1> = SecretKey::generate(context.elgamal_generator(), &mut csprng);
+        let pk = PublicKey::from(&sk);
+        let balance = 5u64;
+        let (enc_balance, _) = et::encrypt_amount(&context, &pk, Amount::from_micro_ccd(balance), &mut csprng);
+        let S = enc_balance.join();
+        let (amount, s_prime_chunks) = if cut_amount { (1_000_000u64, [balance, 0u64]) } else { (0u64, [balance, 1000u64]) };
+        let A = [Cipher(G1::zero_point(), h.mul_by_scalar(&G1::scalar_from_u64(amount)))];
+        let (S_prime, S_prime_rand): (Vec<_>, Vec<_>) = s_prime_chunks.iter().map(|&x| pk.encrypt_exponent_rand_given_generator(&Value::<G1>::from(x), h, &mut csprng)).unzip();
+        let mut ro = RandomOracle::domain("SecToPubTransfer");
+        ro.append_message(b"ctx", &&context);
+        ro.append_message(b"pk", &&pk);
+        let full = gen_enc_trans_proof_info(&pk, &pk, &S, &A, &S_prime, h);
+        let cut = if cut_amount { gen_enc_trans_proof_info(&pk, &pk, &S, &A[..0], &S_prime, h) }
+                  else { gen_enc_trans_proof_info(&pk, &pk, &S, &A, &S_prime[..1], h) };
+        let mk = |xs: &[u64], rs: &[Randomness<G1>]| -> Vec<ComEqSecret<G1>> {
+            xs.iter().zip(rs.iter()).map(|(x, r)| ComEqSecret::<G1> { r: PedersenRandomness::from_u64(*x), a: r.to_value() }).collect()
+        };
+        let secret = EncTransSecret {
+            dlog_secret: Rc::new(sk.scalar),
+            encexp1_secrets: if cut_amount { vec![] } else { vec![ComEqSecret::<G1> { r: PedersenRandomness::from_u64(amount), a: Value::from(0u64) }] },
+            encexp2_secrets: if cut_amount { mk(&s_prime_chunks, &S_prime_rand) } else { mk(&s_prime_chunks[..1], &S_prime_rand[..1]) },
+        };
+        let accounting = prove(&mut ro, &Truncated { full, cut }, secret, &mut csprng)?;
+        let scalars: Vec<<G1 as Curve>::Scalar> = s_prime_chunks.iter().copied().map(G1::scalar_from_u64).collect();
+        let pedrand: Vec<PedersenRandomness<G1>> = S_prime_rand.iter().map(|x| PedersenRandomness::from_value(&x.to_value())).collect();
+        let bp_s = bulletprove(ProofVersion::Version1, &mut ro, &mut csprng, 32, 2, &scalars, &gens,
+            &CommitmentKey { g: *h, h: pk.key }, &pedrand)?;
+        let forged = SecToPubAmountTransferData {
+            remaining_amount: EncryptedAmount { encryptions: [S_prime[0], S_prime[1]] },
+            transfer_amount: Amount::from_micro_ccd(amount),
+            index: 0u64.into(),
+            proof: SecToPubAmountTransferProof { accounting, remaining_amount_correct_encryption: bp_s },
+        };
+        Some(et::verify_sec_to_pub_transfer_data(&context, &pk, &enc_balance, &forged))
+    }
 }
 
 fn attacks(seed: u64) {
+    for (name, cut) in [("sec2pub-truncated-response-public-amount", true), ("sec2pub-truncated-response-remaining-chunk", false)] {
+        match guarded(|| attack::truncated_forgery_sec_to_pub(seed, cut)) {
+            Ok(Some(acc)) => println!("{}", json!({"k":"attack","name":name,"built":true,"accepted":acc,"ok":!acc,
+                "what":"balance 5: forged sec-to-pub transfer pays out 1_000_000 (or keeps 1000*2^32); sigma response omits that chunk"})),
+            Ok(None) => println!("{}", json!({"k":"attack","name":name,"built":false,"ok":true})),
+            Err(e) => println!("{}", json!({"k":"attack","name":name,"built":false,"ok":true,"panic":e})),
+        }
+    }
     for (name, cut) in [("truncated-response-transfer-chunk", true), ("truncated-response-remaining-chunk", false)] {
         match guarded(|| attack::truncated_forgery(seed, cut)) {
             Ok(Some(acc)) => println!("{}", json!({"k":"attack","name":name,"built":true,"accepted":acc,"ok":!acc,
@@ -239,7 +292,7 @@ fn scalar_of_hex(h: &str) -> Option<Fr> {
     concordium_base::common::from_bytes::<Fr, _>(&mut std::io::Cursor::new(hlib::unhex(h))).ok()
 }
 fn limbs_hex(l: [u64; 4]) -> String { format!("{:016x}{:016x}{:016x}{:016x}", l[3], l[2], l[1], l[0]) }
-const R_HEX: &str = "73eda753299d7d483339d80809a1d80553bda402fffe5bfeffffffff00000001";
+fn sc_short(x: &Fr) -> String { let h = sc_hex(x); let t = h.trim_start_matches('0'); if t.is_empty() { "0".into() } else { t.to_string() } }
 
 /// value_to_chunks / chunks_to_value on multi-limb scalars: boundary scalars x all chunk sizes, chunk lists
 /// from the encoder, masked lists of odd lengths (short last section, more than four sections: wraps mod r)
@@ -267,7 +320,7 @@ fn vchunks(seed: u64, n: u64) {
         let s = SIZES[i % 7];
         let x = match scalar_of_hex(xh) { Some(x) => x, None => { println!("{}", json!({"k":"vskip","x":xh})); continue } };
         let res = guarded(|| value_to_chunks::<G1>(&x, size_of(s)));
-        let rj = match &res { Ok(v) => json!(v.iter().map(|c| sc_hex(c.as_ref())).collect::<Vec<_>>()), Err(_) => json!("PANIC") };
+        let rj = match &res { Ok(v) => json!(v.iter().map(|c| sc_short(c.as_ref())).collect::<Vec<_>>()), Err(_) => json!("PANIC") };
         println!("{}", json!({"k":"vto","s":s,"x":xh,"r":rj}));
         let per = (64 / s) as usize;
         let msk = size_of(s).mask();
@@ -284,8 +337,8 @@ fn vchunks(seed: u64, n: u64) {
                 (0..len.min(40)).map(|j| if j == 0 { Value::new(x) } else { Value::<G1>::from(r.u64_edge() & msk) }).collect() }
         };
         let back = guarded(|| chunks_to_value::<G1>(&xs, size_of(s)));
-        let bj = match &back { Ok(v) => json!(sc_hex(v.as_ref())), Err(_) => json!("PANIC") };
-        println!("{}", json!({"k":"vfrom","s":s,"xs":xs.iter().map(|c| sc_hex(c.as_ref())).collect::<Vec<_>>(),"r":bj}));
+        let bj = match &back { Ok(v) => json!(sc_short(v.as_ref())), Err(_) => json!("PANIC") };
+        println!("{}", json!({"k":"vfrom","s":s,"xs":xs.iter().map(|c| sc_short(c.as_ref())).collect::<Vec<_>>(),"r":bj}));
     }
 }
 
